@@ -84,6 +84,7 @@ structure Ctx where
   vgs : Array (List (Bin Rat)) := #[]    -- bins of a viewgram in reverse order of arrival
   svgs : Array (List (Bin Rat)) := #[]
   hasS : Bool := false
+  pmax : Rat := 0                        -- largest matrix element of the configuration
 
 def keyVal (toks : List String) (key : String) : Option String :=
   toks.findSome? fun t => if t.startsWith (key ++ "=") then some ((t.drop (key.length + 1)).toString) else none
@@ -153,18 +154,16 @@ def fmtVec (nvox : Nat) (rowLen : Nat) (out0 : Rat) (sign : Rat) (cs mags : List
 def maxRowLen (S : List (Viewgram Rat)) : Nat :=
   S.foldl (fun m vg => vg.foldl (fun m b => max m b.row.length) m) 0
 
-/-- largest matrix element read -/
-def maxElem (S : List (Viewgram Rat)) : Rat :=
-  S.foldl (fun m vg => vg.foldl (fun m b => b.row.foldl (fun m e => if m < absR e.2 then absR e.2 else m) m) m) 0
+/-- largest matrix element of a bin, and of what came before -/
+def maxElem (m : Rat) (b : Bin Rat) : Rat := b.row.foldl (fun m e => if m < absR e.2 then absR e.2 else m) m
 
-/-- magnitudes `Σ_b (|P_bv| + Pmax/16)·wabs small b`: the second term allows for an absolute uncertainty of
+/-- magnitudes `Σ_b (|P_bv| + Pmax/2)·wabs small b` (`Pmax` = largest element of the whole matrix of the configuration): the second term allows for an absolute uncertainty of
     the matrix elements of the projector actually used (computed with symmetries and a cache; the explicit rows
-    come from a matrix without) of `n/4·2⁻²⁴·Pmax` — ray tracing computes lengths as differences of coordinates -/
-def magContribs (smallF : Viewgram Rat → Rat) (wabs : Rat → Bin Rat → Rat) (S : List (Viewgram Rat)) : List (Nat × Rat) :=
-  let pmax := maxElem S
+    come from a matrix without) of `2n·2⁻²⁴·Pmax` (n ≥ 10; the harness only uses configurations where the two matrices differ by less than 5·10⁻⁷·Pmax) — ray tracing computes lengths as differences of coordinates -/
+def magContribs (pmax : Rat) (smallF : Viewgram Rat → Rat) (wabs : Rat → Bin Rat → Rat) (S : List (Viewgram Rat)) : List (Nat × Rat) :=
   S.flatMap fun vg =>
     let small := smallF vg
-    vg.flatMap fun b => b.row.map fun e => (e.1, (absR e.2 + pmax / 16) * absR (wabs small b))
+    vg.flatMap fun b => b.row.map fun e => (e.1, (absR e.2 + pmax / 2) * absR (wabs small b))
 
 def anyBin (S : List (Viewgram Rat)) (p : Viewgram Rat → Bin Rat → Bool) : Bool :=
   S.any fun vg => vg.any (p vg)
@@ -175,7 +174,7 @@ def doGrad (c : Ctx) (addSens : Bool) (ids : List Nat) : String :=
   let smallF := smallOf constsR (yEff c.zero)
   if anyBin S (fun vg b => nearDiv (smallF vg) (yEff c.zero b) (est c.zero img b)) then "near" else
   let cs := gradContribs constsR c.zero addSens img S
-  let mags := magContribs smallF (fun s b =>
+  let mags := magContribs c.pmax smallF (fun s b =>
       absR (divTrunc constsR s (yEff c.zero b) (est c.zero img b)) +
         (if addSens then 0 else absR ((mult c.zero b).getD 1))) S
   fmtVec c.nvox (maxRowLen S) 0 1 cs mags
@@ -186,7 +185,7 @@ def doSens (c : Ctx) (ids : List Nat) (divide : Rat) : String :=
   let ids := if c.hasS then ids else sensReads trivial c.zero (fun i => c.tof0.getD i i) ids
   let S := getVgs (if c.hasS then c.svgs else c.vgs) ids
   let cs := sensContribs c.zero S
-  let mags := magContribs (fun _ => 0) (fun _ b => sensW c.zero b) S
+  let mags := magContribs c.pmax (fun _ => 0) (fun _ b => sensW c.zero b) S
   fmtVec c.nvox (maxRowLen S + 4) 0 1 cs mags divide
 
 def doHess (c : Ctx) (c0 : Rat) (ids : List Nat) : String :=
@@ -196,7 +195,7 @@ def doHess (c : Ctx) (c0 : Rat) (ids : List Nat) : String :=
   let smallF := smallOf constsR (hessNum x)
   if anyBin S (fun vg b => nearDiv (smallF vg) (hessNum x b) (ybarH img b * ybarH img b)) then "near" else
   let cs := hessContribs constsR img x S
-  let mags := magContribs smallF (hessW constsR img x) S
+  let mags := magContribs c.pmax smallF (hessW constsR img x) S
   fmtVec c.nvox (3 * maxRowLen S) c0 (-1) cs mags
 
 def doAHess (c : Ctx) (c0 : Rat) (ids : List Nat) : String :=
@@ -205,7 +204,7 @@ def doAHess (c : Ctx) (c0 : Rat) (ids : List Nat) : String :=
   let smallF := smallOf constsR (fun b : Bin Rat => fwd x b.row)
   if anyBin S (fun vg b => nearDiv (smallF vg) (fwd x b.row) (applyNorm constsR b.fac (applyNorm constsR b.fac b.y))) then "near" else
   let cs := ahessContribs constsR x S
-  let mags := magContribs smallF (ahessW constsR x) S
+  let mags := magContribs c.pmax smallF (ahessW constsR x) S
   fmtVec c.nvox (maxRowLen S + 8) c0 (-1) cs mags
 
 def doVal (c : Ctx) (ids : List Nat) : String :=
@@ -262,11 +261,11 @@ def stepLine (c : Ctx) (line : String) : Ctx × String :=
   | "inp" :: rest => ({ c with inp := (rest.map hexD).toArray }, "ok")
   | "bin" :: rest =>
     match parseBin rest with
-    | some (vg, b) => ({ c with vgs := pushBin c.vgs vg b }, "ok")
+    | some (vg, b) => ({ c with vgs := pushBin c.vgs vg b, pmax := maxElem c.pmax b }, "ok")
     | none => (c, "bad-bin")
   | "sbin" :: rest =>
     match parseBin rest with
-    | some (vg, b) => ({ c with svgs := pushBin c.svgs vg b, hasS := true }, "ok")
+    | some (vg, b) => ({ c with svgs := pushBin c.svgs vg b, hasS := true, pmax := maxElem c.pmax b }, "ok")
     | none => (c, "bad-bin")
   | "val" :: ids => (c, doVal c (ids.map N))
   | "grad" :: ids => (c, doGrad c false (ids.map N))
